@@ -14,10 +14,12 @@ from .hsmcheck import name_of
 RING = 500
 TRACE_RE = re.compile(r"^\[([^\]]*)\] \[([^\]]*)\] e->(.*)\(\) (.*)->(.*)$")
 
-KINDS = ("post_fifo", "post_fifo", "post_lifo", "next_rtc", "next_rtc", "next_rtc",
-         "complete_circuit", "defer", "recall", "query")
-ACTION_KINDS = ("post_fifo", "post_lifo", "defer", "defer", "defer_e", "recall", "recall", "scribble",
-                "is_in", "is_in", "current_state", "current_state")      # the last two: handlers that query the chart
+KINDS = ("post_fifo", "post_fifo", "post_fifo", "post_lifo", "post_lifo", "next_rtc", "next_rtc", "next_rtc",
+         "next_rtc", "complete_circuit", "complete_circuit", "defer", "recall", "query", "clear_spy", "clear_trace")
+ACTION_KINDS = ("post_fifo", "post_fifo", "post_lifo", "post_lifo", "defer", "defer", "defer", "defer_e", "defer_e",
+                "recall", "recall", "recall", "scribble", "scribble",
+                "is_in", "is_in", "current_state", "current_state",      # handlers that query the chart
+                "clear_spy", "clear_trace")                              # handlers that empty the logs mid-step
 
 
 def history(tier):
@@ -103,6 +105,10 @@ class Desync(Exception):
   pass
 
 
+def cleared(seg, which):
+  return any(r[0] == "act" and r[1] == which for r in seg)
+
+
 class Run:
   """Executes a history and yields per-op observations plus expectations."""
 
@@ -158,12 +164,13 @@ class Run:
     m.d.deferred_at_start = list(m.d.deferred)
     self._rest_at_start = name_of(m.m.cur)
     o = self.real.start()
+    self._start_seg = [r for r in o.extra["raw"] if r[0] != "step"][:self._start_len(o)]
     first = ["START"] + spy_lines([r for r in o.extra["raw"] if r[0] != "step"][:self._start_len(o)],
                                   self.HANDLED) + [self.reflection_at_start()]
     if self.host == "ao":
       return self._start_ao(o, first)
     step = first
-    self.exp_full.extend(step)
+    self.exp_full.extend(step)           # (a log emptied during start_at is empty before this anyway)
     self.exp_trace.append(("start_at", "top", name_of(m.m.cur)))
     self.exp_live_spy.extend(step)
     self.exp_live_trace.append(("start_at", "top", name_of(m.m.cur)))
@@ -216,6 +223,10 @@ class Run:
     for seg, (ev, res, refl) in zip(segs, results):
       step = spy_lines(seg, self.HANDLED) + [refl]
       steps.append(step)
+      if cleared(seg, "clear_spy"):
+        self.exp_full.clear()            # the running step's own log is added when the step ends
+      if cleared(seg, "clear_trace"):
+        self.exp_trace.clear()
       self.exp_full.extend(step)
       self.exp_live_spy.extend(step)
       if res["kind"] == "trans":
@@ -247,6 +258,11 @@ class Run:
     if k in ("is_in", "child_state"):
       self.real.apply(op)
       return None
+    if k in ("clear_spy", "clear_trace"):
+      # emptied from outside, between steps: the accumulated log starts again
+      o = self.real.apply(op)
+      (self.exp_full if k == "clear_spy" else self.exp_trace).clear()
+      return o, []
     nact = len(m.actlog)
     results = []
     if k == "next_rtc":
@@ -279,6 +295,10 @@ class Run:
       for seg, (ev, res, refl) in zip(segs, results):
         step = spy_lines(seg, self.HANDLED) + [refl]
         steps.append(step)
+        if cleared(seg, "clear_spy"):
+          self.exp_full.clear()          # the running step's own log is added when the step ends
+        if cleared(seg, "clear_trace"):
+          self.exp_trace.clear()
         self.exp_full.extend(step)
         self.exp_live_spy.extend(step)
         if res["kind"] == "trans":
